@@ -356,11 +356,16 @@ def shards(tier, seed):
     out += [("apps", name) for name in ("mounts", "hosts", "middleware-over-mounts", "files-handle404", "pages-private", "nested-routers")]
     out += [("staticpaths", k, 4) for k in range(4)]
     out += [("hostile", name) for name in ("Accept", "Content-Type", "Content-Length", "Cookie", "Date", "Referer", "Host", "Range", "If-Range", "If-None-Match", "If-Modified-Since", "path", "query")]
+    # ... and in an interpreter whose root logger is set to DEBUG (an application that called logging.basicConfig(level=logging.DEBUG))
+    out += [("debug-logging", d) for d in [('streams',), ('sequences',), ('files',)]]
     return out
 
 
 def run_shard(desc, tier):
     r = R()
+    if desc[0] == "debug-logging":
+        from ..core import fresh
+        return fresh.debug_logging(__name__, tuple(desc[1]), tier)
     kind = desc[0]
     if kind == "view":
         _, k, n = desc
@@ -692,6 +697,11 @@ def finish(merged, tier):
 
 
 def replay(w):
+    if w.get("debug_logging"):
+        import logging as _logging
+        if _logging.getLogger().level != _logging.DEBUG:
+            from ..core import fresh
+            return fresh.replay_debug_logging(__name__, w)
     # re-run the shard family of the recipe and look for the same request
     rec = w["recipe"]
     fam = rec.split(":")[0]
